@@ -33,7 +33,9 @@ prop("C04",
           "year-2026 / year-2090 distance) and a sorted sweep of 10-30 instants placed at A_n, A_n+tsbd, A_n+tsbd+10s, AST with offsets "
           "0, +-1, +-2 ms and up to +-1 segment. Oracle: status from the integer reference model (425 before A_n, 200 on [A_n, A_n+tsbd], "
           "410 one hour after at the latest), monotone 425*200*410*, 425 body = remaining ms; 404 for number<startNumber, unknown "
-          "representation, unknown asset. Non-trivial = a sweep that observed >= 2 different phases; distinct by hash of the case.",
+          "representation, unknown asset. A sixth of the cases carries timeoffset_ (+-1 ms .. 2 s, fractional): the request is then made "
+          "that much earlier / later on the wall clock and must behave as at the listed instant. "
+          "Non-trivial = a sweep that observed >= 2 different phases; distinct by hash of the case.",
      quick=dict(shards=2, timeout=300), thorough=dict(shards=16, timeout=1500, pct=350),
      assumptions=COMMON + ["instants within 0.01 ms of a breakpoint that is not a whole second accept both neighbouring answers (float64 seconds in the code)",
                            "'gone' is required one hour after A_n+tsbd at the latest; the exact 10 s margin is not asserted"])
@@ -117,7 +119,9 @@ prop("C14",
           "start) are requested: exactly the code for the rsq-th segment starting in its cycle, otherwise a response byte-identical to the one "
           "without the parameter. (2) traffic: 1-3 BaseURL patterns of up to 4 u/d/s/h intervals of 1-20 s: StateAt vs an own cyclic expansion "
           "for every second of 3 cycles (near 0 and near 1.7e9), MPD offers one BaseURL per pattern, HTTP: up = plain answer, down = 404 "
-          "(slow/hang sampled in the thorough tier with a one-sided elapsed-time bound). Non-trivial = a status-code sweep with >= 1 hit and "
+          "(slow/hang sampled in the thorough tier with a one-sided elapsed-time bound). A third of the status-code cases carries an "
+          "availabilityTimeOffset from a quarter of a segment to more than two segments (the schedule is counted on the media timeline and must not move). "
+          "Non-trivial = a status-code sweep with >= 1 hit and "
           ">= 1 miss in a cycle k >= 1, or a traffic case with >= 2 BaseURLs; distinct by hash of the case.",
      quick=dict(shards=2, timeout=400), thorough=dict(shards=16, timeout=1500, pct=400), assumptions=COMMON)
 
@@ -148,7 +152,7 @@ prop("C11",
           "periods, optional timeoffset_, optional stop_ between the two instants (MPD turning static), patch ttl 1..600 s) and t1 < t2 with t2-t1 from 1 ms (same piece), one segment, a few segments, a loop wrap, around the "
           "ttl and beyond it; the PatchLocation advertised by MPD(t1) is requested at t2: 425 iff publishTime unchanged, 410 beyond ttl(+10 s), "
           "otherwise the patch (originalPublishTime/publishTime/mpdId checked) is applied with an independent RFC 5261 applier and the result "
-          "compared canonically with MPD(t2). (2) library: MPDDiff on generated id-carrying MPD-like trees and an edit script (S appended / "
+          "compared canonically with MPD(t2); 410 is never accepted when t2-t1 itself is within the ttl. (2) library: MPDDiff on generated id-carrying MPD-like trees and an edit script (S appended / "
           "dropped at the start / repeat changed / inserted in the middle, attributes changed/added/removed, periods appended/dropped, "
           "adaptation sets and representations added/removed, descriptor values changed, elements without id (PatchLocation, UTCTiming) removed / added / changing their schemeIdUri): old+patch == new; panics are violations, "
           "rejections by the diff are counted. Non-trivial = a patch with >= 2 operations or one that both adds and removes.",
@@ -161,7 +165,10 @@ prop("C10",
           "tenc.default_KID and scheme of the served init, key for that kid from the licence endpoint (ClearKey) or from the CPIX file parsed "
           "independently, decryption of the served segment (every fragment) and sample-wise comparison with the clear segment of the same "
           "URL and instant; ciphertext must differ from the clear payload. Plus: an asset built from livesim2's own encrypted output is "
-          "refused with eccp_cenc/eccp_cbcs (MPD and segments, Number and Time). Non-trivial = a segment with protected payload that decrypted "
+          "refused with eccp_cenc/eccp_cbcs (MPD and segments, Number and Time). Besides the repository's two CPIX packages the server of the "
+          "bundled assets is also run with three packages derived from the one-key test package (scheme cenc; cbcs and cenc without the "
+          "optional explicitIV: such a package may be refused, but whatever is served must decrypt); generated layouts may declare avc3 video. "
+          "Non-trivial = a segment with protected payload that decrypted "
           "to the clear samples; distinct by hash of the case.",
      quick=dict(shards=2, timeout=400), thorough=dict(shards=16, timeout=1500, pct=800),
      assumptions=COMMON + ["mp4ff's DecryptInit/DecryptSegment are the decryptor (trusted third-party code, separate from the encrypt path)",
@@ -209,7 +216,9 @@ prop("C08",
           "that got past URL parsing (status != 400); distinct by method+URL+body. Also: low-latency boundary requests (ato at/around the asset's "
           "segment duration with chunkdur), BaseURL indices up to and beyond the number of traffic patterns, option-like path parts after the asset "
           "name; a third of the requests is otherwise servable (2/6/8 s assets, newest segments by number or time, or the first segments of a "
-          "stream that started 15 s ago) so that the hostile value reaches the segment code, incl. status-code cycles shorter than a segment. Receiver part (TestC08Receiver): histories of 3-14 uploads "
+          "stream that started 15 s ago) so that the hostile value reaches the segment code, incl. status-code cycles shorter than a segment; "
+          "Annex I values with repeated keys and query strings carrying them fully, partly or more often; the /patch route in front of media, init, "
+          "subtitle and thumbnail URLs, whole and chunked. Receiver part (TestC08Receiver): histories of 3-14 uploads "
           "to a fresh receiver: valid init/media segments of video/audio/text tracks on 1-2 channels, and the same with 1-3 mutations (box size "
           "fields set to 0,1,2,7,8,9,..,16 MiB, ~4 GiB or +-1..9; box types swapped incl. container/leaf confusion; truncation anywhere and inside "
           "headers; 32-bit payload fields set to hostile values; trailing bytes; duplicated / swapped boxes; bit flips), hostile paths, all "
@@ -244,7 +253,9 @@ prop("C19",
           "URLs, with/without Basic auth (per channel or default credentials; channels absent from the configuration) and per-representation "
           "configuration (language, bitrate, ignored tracks; ignored channels); on channels with credentials, uploads without or with wrong "
           "credentials (a further track's init, forged media for track 0) arrive together with the legitimate ones and must be answered 401 and leave "
-          "no trace; ignored tracks/channels are answered 200, not registered, not stored and not listed. "
+          "no trace; ignored tracks/channels are answered 200, not registered, not stored and not listed; channels on which one track's init "
+          "segment arrives together with the media number that starts the channel (order-independent facts only); raw channels "
+          "(receiveNrRawSegments: every upload 200 and stored under the track's running index). "
           "Per case a sequential round-robin reference run, then 2-6 "
           "concurrent runs on fresh receivers under the race detector: all first uploads (init segments) released by one barrier from separate "
           "goroutines, then per segment number all tracks of all channels at once (as the sender does); optionally channels whose decode times are "
@@ -269,7 +280,7 @@ prop("C16",
           "creation (only init segments may ever arrive), startNumber 1/7, receivers answering 500 to every 2nd media upload (stream goes on, no "
           "retry) or 403 to an init (no media), URLs with a statuscode_ pattern (affected segments may be absent, the rest in order and "
           "faithful), 2.002 s and 1001-based segment durations, low-latency sessions (ato 3/4, chunkdur 1/4 of a 1.0-1.6 s segment, chunked "
-          "transfer; also combined with statuscode_), an upload aborted by deleting the session, bursts of steps issued without waiting (uploads of one representation never overlap), and - thorough tier only - testpic_8s with two ~150 KiB chunks per segment towards a slow receiver. "
+          "transfer; also combined with statuscode_), an upload aborted by deleting the session, bursts of steps issued without waiting (uploads of one representation never overlap), and - thorough tier only - testpic_8s with two ~150 KiB chunks per segment, or four ~75 KiB chunks with the upload open for 6 s, towards a slow receiver. "
           "Wall-clock part (TestC16WallClock): sessions without testNowMS on generated layouts with 200-600 ms segments, duration 1-3 s, "
           "receiver answering at once or after 40/130/250 % of a segment duration (the sender falls behind and catches up): exactly duration/segDur "
           "media segments per representation arrive (nothing more within four further segment durations), consecutive, starting between the live edge at "
